@@ -95,6 +95,16 @@ def _get_cache_size_313(opname: str) -> int:
     return _inline_cache_entries.get(opname, 0)
 
 
+def _get_jump_cache_size(opname: str, version_tuple: tuple) -> int:
+    """Number of inline cache entries that follow jump instruction ``opname``.
+    From 3.12 on, a relative jump is measured from the end of these."""
+    if version_tuple >= (3, 13):
+        return _get_cache_size_313(opname)
+    if version_tuple >= (3, 12):
+        return 1 if opname in ("FOR_ITER", "SEND") else 0
+    return 0
+
+
 def findlabels(code, opc):
     if opc.version_tuple < (3, 10):
         return findlabels_pre_310(code, opc)
@@ -110,13 +120,11 @@ def findlabels_310(code: bytes, opc):
     for offset, op, arg in unpack_opargs_bytecode_310(code, opc):
         if arg is not None:
             if op in opc.JREL_OPS:
-                if opc.version_tuple >= (3, 11) and opc.opname[op] in ("JUMP_BACKWARD", "JUMP_BACKWARD_NO_INTERRUPT"):
+                if opc.version_tuple >= (3, 11) and "JUMP_BACKWARD" in opc.opname[op]:
                     arg = -arg
                 label = offset + 2 + arg * 2
-                # in 3.13 we have to add total cache offsets to label
-                if opc.version_tuple >= (3, 13):
-                    cachesize = _get_cache_size_313(opc.opname[op])
-                    label += 2 * cachesize
+                # from 3.12 we have to add total cache offsets to label
+                label += 2 * _get_jump_cache_size(opc.opname[op], opc.version_tuple)
             elif op in opc.JABS_OPS:
                 label = arg * 2
             else:
